@@ -1263,7 +1263,15 @@ func (p *balloons) Reconfigure(newCfg interface{}) error {
 		return err
 	}
 	log.Info("config updated successfully")
-	if err := p.Sync(p.cch.GetContainers(), p.cch.GetContainers()); err != nil {
+	// only re-admit containers that are still alive, not ones that have already exited
+	alive := []cache.Container{}
+	for _, c := range p.cch.GetContainers() {
+		switch c.GetState() {
+		case cache.ContainerStateCreated, cache.ContainerStateRunning:
+			alive = append(alive, c)
+		}
+	}
+	if err := p.Sync(alive, p.cch.GetContainers()); err != nil {
 		log.Warnf("failed to sync containers: %v", err)
 	}
 	return nil
